@@ -92,7 +92,7 @@ type c20Host struct {
 	cli *c20Client
 }
 
-func c20NewHost(w *cworld) *c20Host {
+func c20NewHost(w *cworld, workers int) *c20Host {
 	cli := &c20Client{objs: map[string]*v1alpha1.CompositeController{}, crds: map[string]*apiextensionsv1.CustomResourceDefinition{}, failGet: map[string]bool{}}
 	revIndexer := cache.NewIndexer(cache.MetaNamespaceKeyFunc, cache.Indexers{cache.NamespaceIndex: cache.MetaNamespaceIndexFunc})
 	mc := &Metacontroller{
@@ -104,7 +104,7 @@ func c20NewHost(w *cworld) *c20Host {
 		mcClient:          w.mcClient,
 		revisionLister:    mclisters.NewControllerRevisionLister(revIndexer),
 		parentControllers: map[string]*parentController{},
-		numWorkers:        1,
+		numWorkers:        workers,
 		ssaOptions:        &common.ApplyOptions{FieldManager: "metacontroller", Strategy: common.ApplyStrategyDynamicApply},
 		logger:            logr.Discard(),
 	}
@@ -296,6 +296,7 @@ type c20Event struct {
 
 type c20Case struct {
 	Flavor   string     `json:"flavor"`
+	Workers  int        `json:"workers,omitempty"` // >= 2: that many workers per hosted controller and two parent objects per name and kind
 	Family   string     `json:"family"`
 	Events   []c20Event `json:"events"`
 	Features []string   `json:"features"`
@@ -460,6 +461,9 @@ func c20Answer(rawURL string, hdr http.Header, req map[string]interface{}) (int,
 	run := rv.(*c20Run)
 	short := run.short(real)
 	if kind == "customize" {
+		run.mu.Lock()
+		run.entered[fmt.Sprintf("%s/%d", short, id)]++
+		run.mu.Unlock()
 		run.waitGate()
 	}
 	run.mu.Lock()
@@ -483,13 +487,15 @@ func c20Answer(rawURL string, hdr http.Header, req map[string]interface{}) (int,
 // ---- one run of one case ----
 
 type c20Run struct {
-	slot  int
-	w     *c20World
-	host  *c20Host
-	mu    sync.Mutex
-	calls map[string]int // "<short>/<id>/<kind>" -> hook calls since the last reset
-	gate  chan struct{}
-	pokes int
+	slot    int
+	w       *c20World
+	host    *c20Host
+	mu      sync.Mutex
+	calls   map[string]int // "<short>/<id>/<kind>" -> hook calls since the last reset
+	entered map[string]int // "<short>/<id>" -> customize hook requests received (answered or still held at the gate)
+	workers int
+	gate    chan struct{}
+	pokes   int
 	// per name: last seen instance identity and its incarnation number
 	lastPtr  map[string]uintptr
 	incarn   map[string]int
@@ -537,6 +543,12 @@ func (r *c20Run) openGate() {
 	}
 }
 
+func (r *c20Run) enteredOf(key string) int {
+	r.mu.Lock()
+	defer r.mu.Unlock()
+	return r.entered[key]
+}
+
 func (r *c20Run) resetCalls() {
 	r.mu.Lock()
 	r.calls = map[string]int{}
@@ -578,43 +590,63 @@ var c20ParentKinds = []struct{ apiVersion, kind, ns, prefix string }{
 	{"ctl.example.com/v1", "ClusterThing", "", "q-"},
 }
 
+// parentNames: the parent objects of one controller name and kind
+func (r *c20Run) parentNames(prefix, short string) []string {
+	if r.workers >= 2 {
+		return []string{prefix + short, prefix + "2-" + short}
+	}
+	return []string{prefix + short}
+}
+
 func (r *c20Run) seedCluster() {
 	r.w.srv.Seed(map[string]interface{}{"apiVersion": "v1", "kind": "Namespace", "metadata": map[string]interface{}{"name": "ns1"}})
 	for _, short := range []string{"a", "b"} {
 		for _, pk := range c20ParentKinds {
-			md := map[string]interface{}{"name": pk.prefix + short, "labels": map[string]interface{}{"ctl": short}, "generation": int64(1)}
-			if pk.ns != "" {
-				md["namespace"] = pk.ns
+			for _, name := range r.parentNames(pk.prefix, short) {
+				md := map[string]interface{}{"name": name, "labels": map[string]interface{}{"ctl": short}, "generation": int64(1)}
+				if pk.ns != "" {
+					md["namespace"] = pk.ns
+				}
+				r.w.srv.Seed(map[string]interface{}{"apiVersion": pk.apiVersion, "kind": pk.kind, "metadata": md, "spec": map[string]interface{}{}})
 			}
-			r.w.srv.Seed(map[string]interface{}{"apiVersion": pk.apiVersion, "kind": pk.kind, "metadata": md, "spec": map[string]interface{}{}})
 		}
 	}
 	r.w.srv.Seed(map[string]interface{}{"apiVersion": "v1", "kind": "Pod", "metadata": map[string]interface{}{"name": "pod-1", "namespace": "ns1", "labels": map[string]interface{}{"app": "x"}}})
 	r.w.srv.Seed(map[string]interface{}{"apiVersion": "apps.example.com/v1", "kind": "Widget", "metadata": map[string]interface{}{"name": "w-1", "namespace": "ns1"}})
 }
 
-// poke: every parent object changes (label bumped, status dropped) and the
-// change is delivered to all open watches.
+// poke: every parent object changes (label bumped, status dropped), so does every
+// object a customize hook may have declared related, and the changes are delivered
+// to all open watches.
 func (r *c20Run) poke() {
 	r.pokes++
+	touch := func(apiVersion, kind, ns, name string, dropStatus bool) {
+		o := r.w.srv.GetLive(apiVersion, kind, ns, name)
+		if o == nil {
+			return
+		}
+		md := o["metadata"].(map[string]interface{})
+		lb, _ := md["labels"].(map[string]interface{})
+		if lb == nil {
+			lb = map[string]interface{}{}
+		}
+		lb["poke"] = strconv.Itoa(r.pokes)
+		md["labels"] = lb
+		delete(md, "resourceVersion")
+		if dropStatus {
+			delete(o, "status")
+		}
+		r.w.srv.Emit("MODIFIED", r.w.srv.Seed(o))
+	}
 	for _, short := range []string{"a", "b"} {
 		for _, pk := range c20ParentKinds {
-			o := r.w.srv.GetLive(pk.apiVersion, pk.kind, pk.ns, pk.prefix+short)
-			if o == nil {
-				continue
+			for _, name := range r.parentNames(pk.prefix, short) {
+				touch(pk.apiVersion, pk.kind, pk.ns, name, true)
 			}
-			md := o["metadata"].(map[string]interface{})
-			lb, _ := md["labels"].(map[string]interface{})
-			if lb == nil {
-				lb = map[string]interface{}{}
-			}
-			lb["poke"] = strconv.Itoa(r.pokes)
-			md["labels"] = lb
-			delete(md, "resourceVersion")
-			delete(o, "status")
-			r.w.srv.Emit("MODIFIED", r.w.srv.Seed(o))
 		}
 	}
+	touch("v1", "Namespace", "", "ns1", false)
+	touch("v1", "Pod", "ns1", "pod-1", false)
 }
 
 type c20Obs struct {
@@ -663,11 +695,13 @@ func (r *c20Run) instsObs() map[string][2]int {
 	return out
 }
 
-func (r *c20Run) activity() map[string][2]int {
+// activity: per instance "<short>/<id>" the hook calls (sync and finalize; with all,
+// customize too) and the API writes made on its behalf since the last reset
+func (r *c20Run) activity(all bool) map[string][2]int {
 	out := map[string][2]int{}
 	for k, v := range r.callsSnapshot() {
 		parts := strings.Split(k, "/")
-		if len(parts) != 3 || parts[2] == "customize" {
+		if len(parts) != 3 || (parts[2] == "customize" && !all) {
 			continue
 		}
 		key := parts[0] + "/" + parts[1]
@@ -691,9 +725,13 @@ func (r *c20Run) activity() map[string][2]int {
 // runCase drives one history and returns what was observed.
 func c20RunCase(slot int, c *c20Case) (recs []c20StepRec) {
 	c20Install()
-	run := &c20Run{slot: slot, calls: map[string]int{}, lastPtr: map[string]uintptr{}, incarn: map[string]int{}}
+	run := &c20Run{slot: slot, calls: map[string]int{}, entered: map[string]int{}, workers: c.Workers, lastPtr: map[string]uintptr{}, incarn: map[string]int{}}
 	run.w = c20NewWorld()
-	run.host = c20NewHost(run.w)
+	workers := 1
+	if c.Workers >= 2 {
+		workers = c.Workers
+	}
+	run.host = c20NewHost(run.w, workers)
 	for _, s := range []string{"a", "b"} {
 		c20Runs.Store(c20RealName(s, slot), run)
 	}
@@ -738,6 +776,21 @@ func c20RunCase(slot int, c *c20Case) (recs []c20StepRec) {
 		// now let the hosted workers run and watch what they do
 		run.resetCalls()
 		run.w.srv.ResetLog()
+		need := 1
+		if c.Workers >= 2 {
+			need = 2 // two parent objects, two workers
+		}
+		if e, ok := obs.Insts[ev.Name]; ok && e[1] != incBefore && need > 1 {
+			// Barrier: a freshly started instance whose syncs ask a customize hook has
+			// both workers at the hook before either gets its answer, so that both go
+			// on to subscribe to the related resource at the same time.
+			if sp := c20SpecOf(c, ev.Name, e[0]); sp != nil && sp.Customize.usable() && c20ParentPresent(sp) {
+				key := fmt.Sprintf("%s/%d", ev.Name, e[0])
+				for t0 := time.Now(); run.enteredOf(key) < need && time.Since(t0) < 3*time.Second; {
+					time.Sleep(200 * time.Microsecond)
+				}
+			}
+		}
 		run.openGate()
 		run.poke()
 		var wants []string
@@ -768,9 +821,9 @@ func c20RunCase(slot int, c *c20Case) (recs []c20StepRec) {
 		var called time.Time
 		for {
 			calls, writes := true, true
-			act := run.activity()
+			act := run.activity(false)
 			for _, k := range wants {
-				if act[k][0] == 0 {
+				if act[k][0] < need {
 					calls = false
 				}
 				if act[k][1] == 0 {
@@ -789,12 +842,12 @@ func c20RunCase(slot int, c *c20Case) (recs []c20StepRec) {
 			time.Sleep(2 * time.Millisecond)
 		}
 		if os.Getenv("VERIF_C20_DEBUG") != "" && time.Now().After(deadline.Add(-3500*time.Millisecond)) {
-			fmt.Fprintf(os.Stderr, "slow step: %s %s wants=%v act=%v spec=%+v\n", ev.Name, ev.Abs, wants, run.activity(), ev.Spec)
+			fmt.Fprintf(os.Stderr, "slow step: %s %s wants=%v act=%v spec=%+v\n", ev.Name, ev.Abs, wants, run.activity(true), ev.Spec)
 		}
 		time.Sleep(c20Settle)
 		final := obs
 		final.Refs = c20RefCounts(run.host.factory())
-		final.Active = run.activity()
+		final.Active = run.activity(true)
 		final.WPanics = int(atomic.LoadInt64(&c20WorkerPanics) - wp0)
 		if final.WPanics > 0 {
 			run.sawPanic = true // the history's verdict is settled; do not wait for the worker's next death
@@ -1322,6 +1375,29 @@ func c20Corpus(flavor string, rng *vh.Rng) []*c20Case {
 		}
 		c.Events[2].Spec = c.Events[0].Spec
 	})
+	// two workers sync two parents of a freshly started controller at the same time and
+	// both need a related resource nobody has subscribed to yet
+	conc := func(c *c20Case, g *c20Gen) {
+		c.Workers = 2
+		for i := range c.Events {
+			s := c.Events[i].Spec
+			if s == nil || c.Events[i].Abs != "V" {
+				continue
+			}
+			s.Kind, s.NoHooks = "valid", false
+			s.Parents = []c20Rule{c20Things}
+			s.Children = []c20Rule{c20Pods}
+			s.Sync = &c20HookCfg{URL: true}
+			s.Finalize = nil
+			s.Customize = &c20HookCfg{URL: true, Related: "namespaces"}
+		}
+	}
+	add("corpus-concurrent-related", []string{"V", "D"}, a(2), conc)
+	add("corpus-concurrent-related", []string{"V", "N", "V", "D"}, a(4), func(c *c20Case, g *c20Gen) {
+		conc(c, g)
+		c.Events[1].Spec = c.Events[0].Spec
+	})
+	add("corpus-concurrent-related", []string{"V", "V", "D", "V", "D", "D"}, []string{"a", "b", "a", "a", "b", "a"}, conc)
 	add("corpus-dup-rule", []string{"V", "D"}, a(2), func(c *c20Case, g *c20Gen) {
 		s := c.Events[0].Spec
 		s.Kind, s.Children, s.Customize = "dup-rule", []c20Rule{c20Pods, c20Pods}, nil
@@ -1371,8 +1447,12 @@ func c20Generate(flavor string, seed uint64, n int, tier string, adv bool) []*c2
 		return g.concretise(flavor, family, letters, names)
 	}
 	if tier == "thorough" {
-		for _, l := range c20AllSequences(c20Alphabet, 5) {
-			out = append(out, one(l, "enum5"))
+		for i, l := range c20AllSequences(c20Alphabet, 5) {
+			c := one(l, "enum5")
+			if i%4 == 3 {
+				c.Workers = 2
+			}
+			out = append(out, c)
 		}
 	} else {
 		all := c20AllSequences(c20Alphabet, 4)
@@ -1385,8 +1465,12 @@ func c20Generate(flavor string, seed uint64, n int, tier string, adv bool) []*c2
 		if k > len(all) {
 			k = len(all)
 		}
-		for _, l := range all[:k] {
-			out = append(out, one(l, "enum4-sample"))
+		for i, l := range all[:k] {
+			c := one(l, "enum4-sample")
+			if i%4 == 3 {
+				c.Workers = 2
+			}
+			out = append(out, c)
 		}
 		n -= k
 	}
@@ -1404,7 +1488,11 @@ func c20Generate(flavor string, seed uint64, n int, tier string, adv bool) []*c2
 			letters[j] = full[sub.Intn(len(full))]
 			names[j] = []string{"a", "a", "b"}[sub.Intn(3)]
 		}
-		out = append(out, g.concretise(flavor, "two-names", letters, names))
+		c := g.concretise(flavor, "two-names", letters, names)
+		if sub.Chance(1, 3) {
+			c.Workers = 2
+		}
+		out = append(out, c)
 	}
 	return out
 }
@@ -1496,6 +1584,14 @@ func c20Main(t *testing.T) {
 			t.Fatal(err)
 		}
 		w.Count("family-" + strings.SplitN(c.Family, "-", 3)[0])
+		if c.Workers >= 2 {
+			w.Count("two-workers")
+			for _, r := range recs {
+				if r.Related != nil {
+					w.Count("two-workers-concurrent-related-request")
+				}
+			}
+		}
 		for _, f := range c.Features {
 			w.Count("feature-" + f)
 		}
